@@ -1310,7 +1310,17 @@ ADVANCE_TO_APP_DATA:
 #ifdef USE_DTLS
         if (ACTV_VER(ssl, v_dtls_any))
         {
-            if (ssl->hsState != SSL_HS_FINISHED)
+            if (ssl->hsState != SSL_HS_FINISHED
+#ifdef USE_STATELESS_SESSION_TICKETS
+                /* RFC 5077 3.1: the server may accept our ticket without
+                   echoing the SessionTicket extension; the CCS is then the
+                   first sign of the abbreviated handshake (handled below). */
+                && !(ssl->sid &&
+                     ssl->sid->sessionTicketState == SESS_TICKET_STATE_IN_LIMBO &&
+                     (ssl->hsState == SSL_HS_CERTIFICATE ||
+                      ssl->hsState == SSL_HS_SERVER_KEY_EXCHANGE))
+#endif
+                )
             {
                 /* Possible to get the changeCipherSpec message out of order */
                 psTraceIntInfo("Got out of order CCS: state %d\n", ssl->hsState);
